@@ -284,9 +284,10 @@ type ProposeCtx struct {
 	Bals  []common.Gwei
 	B     *Block
 	// validators touched by operations of this block (avoid double use)
-	used    map[common.ValidatorIndex]bool
-	removed int
-	Ops     map[string]int
+	used          map[common.ValidatorIndex]bool
+	removed       int
+	evidenceEpoch common.Epoch // override of the epoch the next manufactured attester slashing is dated at
+	Ops           map[string]int
 	// deposits this block must carry (after its own eth1 vote)
 	PendingDeposits uint64
 	preSlot         common.Slot // slot of the pre-state (corruption stream)
@@ -350,6 +351,18 @@ func (p *ProposeCtx) AddProposerSlashing(v common.ValidatorIndex) bool {
 		// headers from before the last fork: their domain is the PREVIOUS fork version
 		hslot = common.Slot(fe)*c.Spec.SLOTS_PER_EPOCH - 1 - common.Slot(c.Rng.Intn(int(c.Spec.SLOTS_PER_EPOCH)))
 	}
+	if f := p.Flats[v]; f.WithdrawableEpoch != common.Epoch(FarFuture) && c.Rng.Chance(75) {
+		// exit already initiated, still slashable NOW: the double-signed headers are for a slot at/after the withdrawable epoch
+		// (the header slot is free data; only the signature domain looks at its epoch)
+		hslot = common.Slot(f.WithdrawableEpoch+common.Epoch(c.Rng.Intn(3)))*c.Spec.SLOTS_PER_EPOCH + common.Slot(c.Rng.Intn(int(c.Spec.SLOTS_PER_EPOCH)))
+		p.Ops["pslash_evidence_epoch_outside_window"]++
+		p.Ops["pslash_evidence_after_withdrawable_epoch"]++
+	} else if f.ActivationEpoch > 0 && f.ActivationEpoch != common.Epoch(FarFuture) && c.Rng.Chance(75) {
+		// activated through the deposit queue at epoch A > 0: evidence dated before A
+		hslot = common.Slot(c.Rng.Intn(int(uint64(f.ActivationEpoch) * uint64(c.Spec.SLOTS_PER_EPOCH))))
+		p.Ops["pslash_evidence_epoch_outside_window"]++
+		p.Ops["pslash_evidence_before_activation_epoch"]++
+	}
 	if fe := p.lastForkEpoch(); c.Spec.SlotToEpoch(hslot) < fe {
 		p.Ops["pslash_pre_fork_headers"]++
 	}
@@ -406,7 +419,14 @@ func (p *ProposeCtx) AddAttesterSlashing(vs []common.ValidatorIndex, surround bo
 	if !any {
 		return false
 	}
+	if len(set) == 1 {
+		if f := p.Flats[set[0]]; f.WithdrawableEpoch != common.Epoch(FarFuture) && p.slashable(set[0]) && c.Rng.Chance(75) {
+			p.evidenceEpoch = f.WithdrawableEpoch + 1
+			p.Ops["aslash_evidence_epoch_outside_window"]++
+		}
+	}
 	as := c.makeAttesterSlashing(p, set, surround)
+	p.evidenceEpoch = 0
 	p.B.AttesterSlashings = append(p.B.AttesterSlashings, as)
 	for _, v := range set {
 		p.used[v] = true
@@ -469,6 +489,9 @@ func (c *Chain) makeAttesterSlashing(p *ProposeCtx, set []common.ValidatorIndex,
 		keys[i] = c.keyOfVal(v)
 	}
 	e := p.Epoch
+	if p.evidenceEpoch != 0 {
+		e = p.evidenceEpoch // votes dated outside the offender's slashability window (it is slashable now)
+	}
 	var d1, d2 phase0.AttestationData
 	rnd := func() (r common.Root) { copy(r[:], c.Rng.Bytes(32)); return }
 	if surround {
@@ -965,6 +988,18 @@ func (c *Chain) NewDepositor(amount common.Gwei, eth1 bool) KeyNum {
 	return k
 }
 
+// OddDepositor: a new validator whose credentials start with `prefix` (neither 0x00 nor 0x01) followed by the hash of its withdrawal key.
+func (c *Chain) OddDepositor(amount common.Gwei, prefix byte) KeyNum {
+	k := c.nextValKey
+	c.nextValKey++
+	g := GenVal{Key: k, Balance: amount, WKey: WithdrawalKeyBase + k, Prefix: prefix}
+	c.BLS.UseKey(g.WKey)
+	c.QueueDeposit(DepositDataFor(c.Spec, c.BLS, PubOf(k), g.Credentials(), amount, k))
+	c.depositors[PubOf(k)] = g
+	c.Stats.Inc("deposits_queued_odd_prefix_credentials")
+	return k
+}
+
 // BadDepositor queues a deposit that process_deposit must skip (the block stays valid, no validator appears):
 // proof of possession by another key / under another domain / unparseable, or an undecodable public key.
 func (c *Chain) BadDepositor() string {
@@ -993,6 +1028,23 @@ func (c *Chain) BadDepositor() string {
 	c.QueueDeposit(dd)
 	c.Stats.Inc("deposits_queued_to_be_skipped_" + kind)
 	return kind
+}
+
+// QueueAlternatingDeposits: 16 new validators, alternately with the full amount and one increment short; the short ones are topped
+// up as soon as they are registered, so they become eligible for activation two epochs after the full ones: the activation
+// queue then holds more than 12 entries whose eligibility epochs are not monotone in index order.
+func (c *Chain) QueueAlternatingDeposits(n int) {
+	for i := 0; i < n; i++ {
+		if i == 2 || i == 6 {
+			c.OddDepositor(c.Spec.MAX_EFFECTIVE_BALANCE, []byte{0, 0, 0xff, 0, 0, 0, 0x02}[i])
+		} else if i%2 == 0 {
+			c.NewDepositor(c.Spec.MAX_EFFECTIVE_BALANCE, c.Rng.Chance(40))
+		} else {
+			k := c.NewDepositor(c.Spec.MAX_EFFECTIVE_BALANCE-c.Spec.EFFECTIVE_BALANCE_INCREMENT, c.Rng.Chance(40))
+			c.partialKeys[k] = true
+		}
+	}
+	c.Stats.Add("deposits_queued", n)
 }
 
 // ZeroAmountDepositor: a new key deposits 0 Gwei with a valid proof of possession (the validator is registered with balance 0),
@@ -1160,8 +1212,14 @@ func (c *Chain) learnValidators() {
 		if !ok {
 			panic(fmt.Sprintf("validator %d has a pubkey the generator never deposited", i))
 		}
-		c.Vals = append(c.Vals, ValInfo{Key: g.Key, WKey: g.WKey, Addr: g.Addr})
+		c.Vals = append(c.Vals, valInfoOf(g))
 		c.Stats.Inc("validators_added_by_deposit")
+		if c.partialKeys[g.Key] {
+			delete(c.partialKeys, g.Key)
+			c.queueTopUpForKey(g.Key, c.Spec.EFFECTIVE_BALANCE_INCREMENT*3/2)
+			c.Stats.Add("deposits_queued", 1)
+			c.Stats.Inc("partial_depositors_topped_up")
+		}
 		if c.zeroKeys[g.Key] {
 			c.Stats.Inc("validators_added_with_zero_amount")
 			c.zeroIndex[common.ValidatorIndex(i)] = true
@@ -1280,10 +1338,14 @@ func (c *Chain) Propose(s common.Slot) (bool, error) {
 	var dryErr error
 	{
 		st := CopyState(A)
-		e2 := eA.Clone()
 		spx := specWith(sp, nil)
 		if engMode != "none" {
 			spx = specWith(sp, newEngine(sp, "valid", -1))
+		}
+		// a context of its own, built from scratch (NOT a Clone(): the producer must not depend on what it is probing)
+		e2, e2err := common.NewEpochsContext(spx, st)
+		if e2err != nil {
+			e2 = eA
 		}
 		env := EnvelopeFor(spx, sb, fork, A)
 		func() {
@@ -1409,6 +1471,9 @@ func (c *Chain) Propose(s common.Slot) (bool, error) {
 			}
 		}
 	}
+	if !c.cloneBlockDone[fork] && !c.isSide {
+		c.cloneBlockCheck(A, advEpc, sb, fork, engMode, res.Post, postID)
+	}
 	sibSt, sibEpc, sibCount := c.St, c.Epc, c.ValCount()
 	c.afterStep(res.Post, res.Epc, postID, preEpoch, preFork, true)
 	c.learnValidators()
@@ -1491,11 +1556,43 @@ func (c *Chain) syncBoundaryOps(p *ProposeCtx) {
 	}
 }
 
+// slashExiting: once per fork (and chain) a validator whose exit is already initiated (finite withdrawable epoch, still slashable
+// now) is slashed with evidence dated at/after its withdrawable epoch: proposer slashing, next time attester slashing.
+func (c *Chain) slashExiting(p *ProposeCtx) {
+	key := "slash_exiting_" + p.Fork.String()
+	if c.Vars[key] >= 2 || c.isSide {
+		return
+	}
+	for i := range p.Flats {
+		v := common.ValidatorIndex((i*13 + int(p.Slot)) % len(p.Flats))
+		f := p.Flats[v]
+		if f.WithdrawableEpoch == common.Epoch(FarFuture) || !p.slashable(v) || p.used[v] || c.Protected[v] || v == p.B.ProposerIndex {
+			continue
+		}
+		before := p.Ops["pslash_evidence_epoch_outside_window"] + p.Ops["aslash_evidence_epoch_outside_window"]
+		ok := false
+		if c.Vars[key] == 0 {
+			ok = p.AddProposerSlashing(v)
+		} else {
+			ok = p.AddAttesterSlashing([]common.ValidatorIndex{v}, c.Rng.Bool())
+		}
+		if ok && p.Ops["pslash_evidence_epoch_outside_window"]+p.Ops["aslash_evidence_epoch_outside_window"] > before {
+			c.Vars[key]++
+		}
+		if ok {
+			return
+		}
+	}
+}
+
 // defaultOps adds the scenario-independent background rate of operations.
 func (c *Chain) defaultOps(p *ProposeCtx) {
 	r := c.Rng
 	n := len(p.Flats)
 	rate := c.OpRate
+	if c.SlashExiting {
+		c.slashExiting(p)
+	}
 	if r.Chance(rate.Exit) {
 		for k := 0; k < 1+r.Intn(3); k++ {
 			p.AddExit(common.ValidatorIndex(r.Intn(n)))
@@ -1588,4 +1685,40 @@ type RejectedError struct {
 
 func (e *RejectedError) Error() string {
 	return fmt.Sprintf("honest block rejected at slot %d: dry=%v real=%v", e.Slot, e.Dry, e.Real)
+}
+
+// cloneBlockCheck (once per fork and chain): the block just applied on the main path is applied again to a copy of the
+// slot-advanced state with a Clone() of the slot-advanced LIVE context — block processing on a freshly cloned context, no epoch
+// rotation in between. The clone's context after the block is dumped against the (identical) post-state.
+func (c *Chain) cloneBlockCheck(A common.BeaconState, advEpc *common.EpochsContext, sb SignedBlock, fork ForkID, engMode string,
+	mainPost common.BeaconState, postID string) {
+	c.cloneBlockDone[fork] = true
+	sp := c.Spec
+	st := CopyState(A)
+	clone := advEpc.Clone()
+	spx := specWith(sp, nil)
+	if engMode != "none" {
+		spx = specWith(sp, newEngine(sp, "valid", -1))
+	}
+	env := EnvelopeFor(spx, sb, fork, A)
+	var err error
+	func() {
+		defer func() {
+			if r := recover(); r != nil {
+				err = fmt.Errorf("panic: %v", r)
+			}
+		}()
+		err = common.PostSlotTransition(bgCtx, spx, clone, &beacon.StandardUpgradeableBeaconState{BeaconState: st}, env, true)
+	}()
+	c.Stats.Inc("clone_block_checks")
+	c.Stats.Inc("clone_block_checks." + fork.String())
+	if err != nil || StateRoot(st) != StateRoot(mainPost) {
+		c.Stats.Inc("clone_block_differs")
+		c.problem("block processed on a cloned context differs from the main path (%s, post %s): %v", fork, postID, err)
+		c.Rec.Comment(fmt.Sprintf("clone_block: PostSlotTransition on Clone() of the advanced live context: %v", err))
+		if err != nil {
+			return
+		}
+	}
+	c.recordEPCTagged(postID, Unwrap(mainPost), clone, false, "branch=clone_after_block")
 }
